@@ -16,6 +16,8 @@ Checks(e) ==
   IF e.ev # "fuzz" THEN {<<l, "TOOL_unknown_event">>}
   ELSE Flag(e.res \in {"ok", "err"}, "C09_panic_or_abort")
        \cup Flag(e.res \notin {"ok", "err"} \/ e.heap <= HeapBound(e.surface) + e.len, "C09_memory_raised_by_input")
+       \* the largest single allocation REQUEST (granted or not) obeys the same bound: a length field must not size a buffer
+       \cup Flag(e.maxreq <= HeapBound(e.surface) + e.len, "C09_allocation_request_raised_by_input")
        \cup Flag(e.ms <= 20000, "C09_unbounded_work")
 Step == /\ l <= N /\ viol' = viol \cup Checks(Rec[l]) /\ l' = l + 1
 Report ==
